@@ -20,3 +20,16 @@ Proof. vm_compute. reflexivity. Qed.
 (* recursion stubs are compared by identity: FuncWrapper defines neither __eq__ nor __hash__ *)
 Theorem stubs_compare_by_identity : stub_eq_by_identity = true.
 Proof. vm_compute. reflexivity. Qed.
+
+(* the type normaliser behind normalize_type: ONE module-level instance serves every thread, and the lru_cache in front of
+   it does not serialise concurrent misses.  What the review established: outside __init__ no method of a class of
+   normalize_type.py stores into an attribute of self (the list of such statements, regenerated from the source, is
+   empty); evaluating forward references switches the namespace on a COPY of the normaliser (_with_namespace). *)
+Theorem normalizer_is_never_mutated_after_construction : normalizer_self_writes = [].
+Proof. vm_compute. reflexivity. Qed.
+
+Definition reviewed_normalizer_namespace_code : list (string * list string) :=
+  [("TypeNormalizer._with_namespace", ["self_copy = copy(self)"; "self_copy._namespace = namespace"; "return self_copy"]); ("TypeNormalizer._with_module_namespace", ["try: module = sys.modules[module_name] except KeyError: return self"; "return self._with_namespace(vars(module))"])].
+
+Theorem normalizer_namespace_code_is_the_reviewed_one : normalizer_namespace_code = reviewed_normalizer_namespace_code.
+Proof. vm_compute. reflexivity. Qed.
